@@ -496,12 +496,12 @@ def _pmap_call(args):
     return _PMAP_FN(*args)
 
 
-def pmap(fn, arglist, procs=None, chunksize=64):
+def pmap(fn, arglist, procs=None, chunksize=64, minpar=200):
     """Run fn(*args) for every args tuple, in forked worker processes (the repository
     modules already imported in the parent are inherited). Order is preserved."""
     global _PMAP_FN
     arglist = list(arglist)
-    if len(arglist) < 200:
+    if len(arglist) < minpar:
         return [fn(*a) for a in arglist]
     import multiprocessing as mp
     _PMAP_FN = fn
